@@ -57,9 +57,10 @@ func tryReplay(P *Prog, ex *Exec, o *Obl, v *Verdict, tmp string, seed int) *Rep
 		rr.Note = "no harness: closure or synthetic function"
 		return rr
 	}
+	modelOnly := false
 	if !panicKinds[o.Kind] {
 		rr.Note = "no harness: replay of contract clauses (kind " + o.Kind + ") is not generated; the obligation itself is the evidence"
-		return rr
+		modelOnly = true
 	}
 	// model query: quantified assumptions are dropped (over-approximation; the
 	// model is only a candidate input)
@@ -124,6 +125,10 @@ func tryReplay(P *Prog, ex *Exec, o *Obl, v *Verdict, tmp string, seed int) *Rep
 	}
 	if g.tooBig {
 		rr.Note = "model asks for an allocation above the replay limit; not run"
+		return rr
+	}
+	if modelOnly {
+		rr.Note += " (candidate input from the solver model attached)"
 		return rr
 	}
 	// build the test
